@@ -51,6 +51,9 @@ pub trait Sim: Sync {
     fn clock_read_ns(&self) -> u64;
     /// One unit of engine work has been done (`Board::make_move`).
     fn work_tick(&self);
+    /// The calling thread starts / has finished working on a node of the search tree.
+    fn node_enter(&self) {}
+    fn node_exit(&self) {}
     /// A line for stdout. Return `true` if the simulator consumed it.
     fn out(&self, line: &str) -> bool;
     /// A line for stderr. Return `true` if the simulator consumed it.
@@ -310,6 +313,24 @@ impl std::ops::Sub<Instant> for Instant {
 pub fn work_tick() {
     if let Some(s) = sim() {
         s.work_tick();
+    }
+}
+
+/// Brackets the work on one node of the search tree (dropped on every way out of it).
+pub struct NodeScope(());
+
+pub fn node_scope() -> NodeScope {
+    if let Some(s) = sim() {
+        s.node_enter();
+    }
+    NodeScope(())
+}
+
+impl Drop for NodeScope {
+    fn drop(&mut self) {
+        if let Some(s) = sim() {
+            s.node_exit();
+        }
     }
 }
 
